@@ -24,6 +24,8 @@ func Register() {
 			"token.edit_max_with_fractional_supply", "token.edit_max_exactly_circulating", "token.edit_max_below_rejected",
 			"token.owner_transferred", "token.mint_by_new_owner", "token.owner_race_planned", "token.fee_split_both_ways",
 			"token.issue_initial_at_limit", "token.issue_max_at_limit", "token.params_changed", "token.burn_by_non_owner",
+			"token.legacy_route.issue", "token.legacy_route.edit", "token.legacy_route.mint", "token.legacy_route.burn",
+			"token.legacy_route.transfer", "token.legacy_non_owner_mint_rejected",
 			"C09.ghost_supply_checks", "token.ghost_created_by_failtail", "token.ghost_created_by_out_of_gas",
 			"token.ghost_reissued_other_minunit", "token.ghost_reissued_other_symbol", "token.ghost_op_attempted",
 			"token.ghost_op_attempted.mint", "token.ghost_op_attempted.burn", "token.ghost_op_attempted.edit",
@@ -44,7 +46,8 @@ func Register() {
 			"token.evm_fault_fired.balance_error_before", "token.evm_fault_fired.balance_error_after",
 			"token.to_erc20_other_receiver", "token.from_erc20_other_receiver", "token.from_erc20_whole_balance",
 			"token.feeswap_ratio_one", "token.feeswap_with_dust", "token.feeswap_across_scales", "token.feeswap_minted_nothing",
-			"token.ibc_token_registered", "token.erc20_deployed",
+			"token.ibc_token_registered", "token.erc20_deployed", "token.ghost_payout_planned", "token.feeswap_after_payout_ghost",
+			"token.collision_symbol_is_min_unit", "token.collision_conversion",
 			"C10.hook_checks", "token.hook_multi_log", "token.hook_same_receiver_twice", "token.hook_noise_logs",
 			"token.hook_refused.blocked_receiver", "token.hook_refused.malformed_receiver", "token.hook_refused.zero_amount"},
 		Rule: "a run is non-trivial when at least two accepted conversions (ERC20 either way, or fee-token swaps) were judged exactly, the committed EVM ledger was compared with the model, and either a conversion was rejected (no-trace rule exercised) or a fee-token swap was judged; distinct = different fingerprint of the executed (operation kind, outcome class) sequence",
